@@ -6,6 +6,7 @@ import (
 	"fmt"
 	"math"
 	"math/rand/v2"
+	"runtime"
 	"sync"
 	"sync/atomic"
 
@@ -131,6 +132,7 @@ func init() {
 			{Name: "bufreuse", Run: regionsReuse},
 			{Name: "many", TShards: 2, Run: c16Many},
 			{Name: "profiles", TShards: 4, Run: c16Profiles},
+			{Name: "pileups", TShards: 2, Run: c16Pileups},
 		},
 	})
 }
@@ -652,5 +654,64 @@ func c16Profiles(c *Ctx) {
 				k.Nontrivial([]byte(fmt.Sprint(starts)), []byte(fmt.Sprint(ends)))
 			}
 		})
+	}
+}
+
+// c16Pileups: positions covered by thousands of intervals (2047, 2048, 2049,
+// 3000 at once; the profiles unit stops at 1000), built and queried with
+// the process restricted to ONE CPU for every other case — work that NewIndex
+// hands to helper goroutines is then still pending when it returns unless it
+// really waits for it; with sixteen idle CPUs the helpers always win the race.
+// Layouts: a staircase (interval x covers [x, n + x): every depth from 1 to n), and, on one CPU, nearly
+// identical intervals (a handful of pieces, each n deep, built in microseconds).
+func c16Pileups(c *Ctx) {
+	depths := []int{2047, 2048, 2049, 3000} // (the index stores every piece's set: memory grows with the square of the depth)
+	if c.Thorough {
+		depths = append(depths, 4095, 4096, 4097)
+	}
+	idx := int64(0)
+	for _, n := range depths {
+		for variant := 0; variant < 2; variant++ {
+			c.Case(idx, func(k *K) {
+				r := k.Rand()
+				if variant == 1 {
+					defer runtime.GOMAXPROCS(runtime.GOMAXPROCS(1))
+					k.Count("cases_on_one_cpu", 1)
+				}
+				starts, ends := make([]int, n), make([]int, n)
+				perm := r.Perm(n)        // interval NUMBERS in random order: number perm[x] covers [x, n+x)
+				for x := 0; x < n; x++ { // interval perm[x] covers [s(x), s(x) + n) with s(x) = x (staircase) or x mod 3
+					sx := x
+					if variant == 1 {
+						sx = x % 3
+					}
+					starts[perm[x]], ends[perm[x]] = sx, n+sx
+				}
+				k.Input("pile_up_depth", n)
+				k.Input("one_cpu", variant == 1)
+				ix := regions.NewIndex(starts, ends)
+				for _, q := range []int{n - 1, n, 0, n / 2, n + n/2, 2*n - 2, 2*n - 1, -1, r.IntN(2 * n), r.IntN(2 * n)} {
+					want := make([]int, 0, n)
+					for num := 0; num < n; num++ {
+						if starts[num] <= q && q < ends[num] {
+							want = append(want, num)
+						}
+					}
+					got := ix.At(q)
+					if !sameInts(got, want) {
+						first := 0
+						for first < len(got) && first < len(want) && got[first] == want[first] {
+							first++
+						}
+						k.Failf("at", "pile-up of %d intervals: At(%d) returns %d numbers, want %d ascending; first difference at index %d", n, q, len(got), len(want), first)
+						return
+					}
+					k.Evals(1)
+				}
+				k.Count("pileup_indexes", 1)
+				k.Nontrivial([]byte(fmt.Sprint("pileup", n, variant)))
+			})
+			idx++
+		}
 	}
 }
